@@ -57,10 +57,19 @@ def point_sets(rng, d, tier):
     face[:, 0] = rng.random(len(face))
     sets.append(('face', np.clip(face, 0.0, np.nextafter(1.0, 0))))
     sets.append(('corner', np.clip(np.abs(rng.normal(0, 0.05, (60 + 10 * d, d))), 0.0, np.nextafter(1.0, 0))))
+    if d >= 3:
+        # cube dimensions that are not the leading ones (every arrangement of cube / ellipsoid columns must be put back in place)
+        fl = rng.normal(0.5, 0.05, (60 + 10 * d, d))
+        fl[:, d - 1] = rng.random(len(fl))
+        sets.append(('face-last', np.clip(fl, 0.0, np.nextafter(1.0, 0))))
+        fm = rng.normal(0.5, 0.05, (60 + 10 * d, d))
+        fm[:, 1] = rng.random(len(fm))
+        fm[:, d - 1] = rng.random(len(fm))
+        sets.append(('face-mid-last', np.clip(fm, 0.0, np.nextafter(1.0, 0))))
     # the smallest point sets an ellipsoid can be built from (d + 1 and d + 2 points)
     small = [('simplex', rng.random((d + 1, d))), ('simplex+1', rng.random((d + 2, d)))]
     if tier == 'quick':
-        return (sets[:4] if d > 3 else sets) + small
+        return (sets[:4] + [x for x in sets[4:] if x[0].startswith('face-')] if d > 3 else sets) + small
     return sets + small
 
 
@@ -137,7 +146,7 @@ def build_and_check(nb, seed, tier):
                 if not np.all(np.isfinite(e.B)):
                     continue
                 check_ellipsoid(e, pts, e_, lab, fails, cases_q, rng, with_construction=(name != 'elongated' or e_ > 1.01))
-            if d >= 2 and name in ('face', 'blob', 'corner', 'two'):
+            if d >= 2 and name in ('face', 'blob', 'corner', 'two', 'face-last', 'face-mid-last'):
                 lab = 'Mixture-%d-%s' % (d, name)
                 with np.errstate(all='ignore'):
                     m = UnitCubeEllipsoidMixture.compute(pts, rng=np.random.default_rng(int(rng.integers(1 << 30))))
